@@ -16,6 +16,7 @@ import (
 	"strconv"
 	"sync"
 	"testing"
+	"time"
 
 	tikverr "github.com/tikv/client-go/v2/error"
 	"github.com/tikv/client-go/v2/kv"
@@ -220,8 +221,13 @@ func pScenario(log *bufio.Writer, seed int64, scn int, nops int) {
 			if len(staging) > 0 && rnd.Intn(2) == 0 {
 				h := staging[len(staging)-1]
 				staging = staging[:len(staging)-1]
-				p.Release(h)
-				emitOp(pM{"op": "Release", "res": "ok", "out": 0})
+				if rnd.Intn(2) == 0 {
+					p.Release(h)
+					emitOp(pM{"op": "Release", "res": "ok", "out": 0})
+				} else {
+					p.Cleanup(h)
+					emitOp(pM{"op": "Cleanup", "res": "ok", "out": 0})
+				}
 			} else if len(staging) < 2 {
 				staging = append(staging, p.Staging())
 				emitOp(pM{"op": "Staging", "res": "ok", "out": 0})
@@ -250,6 +256,15 @@ func TestVerifPipelined(t *testing.T) {
 	log := bufio.NewWriterSize(f, 1<<20)
 	defer log.Flush()
 	for s := 0; s < n; s++ {
-		pScenario(log, seed, s, 40)
+		done := make(chan struct{})
+		go func() { defer close(done); pScenario(log, seed, s, 40) }()
+		select {
+		case <-done:
+		case <-time.After(30 * time.Second):
+			// a call on the buffer (or the flush hand-shake it implies) never came back: record it and stop
+			log.WriteString("{\"ev\":\"hang\",\"scn\":" + strconv.Itoa(s) + "}\n")
+			log.Flush()
+			return
+		}
 	}
 }
